@@ -193,7 +193,9 @@ func c08Case(row cat.Row, word []h.Ev) fw.Case {
 		}
 		return fw.Instance{Body: body, Outcome: rec.Trace, Check: func(r *vrt.Result) []fw.Violation {
 			out := viol
-			if r.Threads > 1 {
+			// (BufferWithTimeOrCount keeps a ticker goroutine for its time side: no value travels through it
+			// in these scenarios, the period never elapses; the delivery clauses above still apply)
+			if r.Threads > 1 && row.Family != "BufferWithTimeOrCount" {
 				out = append(out, fw.V("pushed/"+row.Name+"/hidden-goroutine/spawn", fmt.Sprintf("a synchronous pipeline started %d extra goroutine(s)", r.Threads-1)))
 			}
 			return out
